@@ -2,6 +2,7 @@ package checks
 
 import (
 	"fmt"
+	"fortio.org/log"
 	"math"
 	"os"
 	"strings"
@@ -462,6 +463,13 @@ func runC14(c *core.Ctx) {
 		}
 		bounds = append(bounds, "save(name) of 1/5/40 bindings, then of 0/1/4 of them under the same name, then load(name) in a fresh session")
 	}
+	// histories of sessions, each one auto-loading what the previous one auto-saved, doing one or two updates and
+	// auto-saving (the real repl.AutoLoad / repl.AutoSave, which only saves when it sees the state as changed):
+	// the last reload must be the state of one uninterrupted session that did all the updates
+	if ok {
+		n := c14Sessions(c)
+		bounds = append(bounds, fmt.Sprintf("%d session histories: a defining session, then every sequence of 1..%d sessions each doing one of %d updates (direct and through functions: read-modify-write of a global, map key, array element, ++, del, new global, redefinition, nothing) between repl.AutoLoad and repl.AutoSave, compared with one uninterrupted session; each also at debug log level", n, map[bool]int{true: 2, false: 3}[c.Quick()], len(c14SessionOps)))
+	}
 	// functions whose bodies are every G-syn statement list up to a size
 	if ok {
 		size := 3
@@ -479,11 +487,115 @@ func runC14(c *core.Ctx) {
 	c.P.Bound = strings.Join(bounds, "; ") + "; reloaded both by repl.AutoLoad (line at a time) and by load() (whole file)"
 }
 
+const c14SessionInit = `cnt = 1; m = {"k": 1, 2: [3]}; arr = [1, [2]]; x = 0; s = "a"; func inc() { cnt = cnt + 1 }; func setm() { m.k = m.k + 1 }; func seta() { arr[0] = arr[0] + 1 }; func incx() { x++ }; func grow() { s = s + s }; func wr() { cnt = 50 }; func delk() { del(m.k) }; func viaarg(v) { cnt = cnt + v }; func nested() { inc(); inc() }`
+
+var c14SessionOps = []string{
+	"cnt = cnt + 1", "inc()", "setm()", "seta()", "incx()", "grow()", "wr()", "delk()", "viaarg(10)", "nested()",
+	"m.k = 7", "arr[1] = 9", "x++", "del(x)", "y = [cnt]", "cnt", "m[2][0] = 4", "func inc() { cnt = cnt + 100 }", "inc(); cnt = cnt - 1",
+	"s = s + \"" + strings.Repeat("z", 200) + "\"", "grow(); grow(); grow(); grow(); grow(); grow(); grow(); grow()",
+}
+
+// c14Sessions enumerates the session histories; returns how many were run by this worker or others.
+func c14Sessions(c *core.Ctx) int {
+	maxLen := 3
+	if c.Quick() {
+		maxLen = 2
+	}
+	total := 0
+	var rec func(h []int)
+	rec = func(h []int) {
+		if len(h) > 0 {
+			for _, debugLevel := range []bool{false, true} {
+				total++
+				key := fmt.Sprintf("sessions|%v|debug=%v", h, debugLevel)
+				if !c.Mine("env", key) {
+					continue
+				}
+				var ops []string
+				for _, i := range h {
+					ops = append(ops, c14SessionOps[i])
+				}
+				cs := core.Case{Kind: "sessions", Cfg: fmt.Sprint(debugLevel), Data: strings.Join(ops, " ;; ")}
+				c.Current(cs)
+				v := c.Run(func() *core.Viol { return c14SessionHistory(ops, debugLevel, cs) })
+				out := "reloads-equal"
+				if v != nil {
+					out = v.Class
+				}
+				c.Count("env: "+trunc(key+" "+cs.Data, 160), out, true)
+			}
+		}
+		if len(h) == maxLen || c.Expired() {
+			return
+		}
+		for i := range c14SessionOps {
+			rec(append(append([]int{}, h...), i))
+		}
+	}
+	rec(nil)
+	return total
+}
+
+func c14SessionHistory(ops []string, debugLevel bool, cs core.Case) *core.Viol {
+	dir, err := os.MkdirTemp("", "c14-sess-")
+	if err != nil {
+		return nil
+	}
+	defer os.RemoveAll(dir)
+	old, _ := os.Getwd()
+	_ = os.Chdir(dir)
+	defer func() { _ = os.Chdir(old) }()
+	if debugLevel {
+		// the log level is configuration like any other: what is saved must not depend on it
+		prev := log.GetLogLevel()
+		log.SetLogLevelQuiet(log.Debug)
+		defer log.SetLogLevelQuiet(prev)
+	}
+	opts := repl.Options{AutoLoad: true, AutoSave: true}
+	// the uninterrupted session
+	one := newSess(sessCfg{})
+	implEval(one, c14SessionInit, 100000)
+	for _, op := range ops {
+		implEval(one, op, 100000)
+	}
+	want := globalsDump(one.s)
+	// the same in separate sessions
+	run := func(src string) *core.Viol {
+		x := newSess(sessCfg{})
+		if err := repl.AutoLoad(x.s, opts); err != nil {
+			return &core.Viol{Class: "sessions:autoload-error", Detail: fmt.Sprintf("before %q: %v", trunc(src, 80), err), Case: cs}
+		}
+		if src != "" {
+			implEval(x, src, 100000)
+		}
+		if err := repl.AutoSave(x.s, opts); err != nil {
+			return &core.Viol{Class: "sessions:autosave-error", Detail: fmt.Sprintf("after %q: %v", trunc(src, 80), err), Case: cs}
+		}
+		return nil
+	}
+	if v := run(c14SessionInit); v != nil {
+		return v
+	}
+	for _, op := range ops {
+		if v := run(op); v != nil {
+			return v
+		}
+	}
+	last := newSess(sessCfg{})
+	if err := repl.AutoLoad(last.s, opts); err != nil {
+		return &core.Viol{Class: "sessions:autoload-error", Detail: fmt.Sprintf("final reload: %v", err), Case: cs}
+	}
+	if got := globalsDump(last.s); got != want {
+		return &core.Viol{Class: "sessions:state-lost", Detail: fmt.Sprintf("after sessions doing %q (debug log level %v) the reloaded state is\n%s\nan uninterrupted session ends with\n%s", ops, debugLevel, trunc(got, 600), trunc(want, 600)), Case: cs}
+	}
+	return nil
+}
+
 func init() {
 	core.Register(&core.Check{
-		ID:    "C14",
-		Level: "exploration",
-		Rule: "global environments enumerated exhaustively over a value/function universe; each is built through the evaluator, saved with State.SaveGlobals, written to ./.gr in a scratch directory and reloaded into fresh states by the real repl.AutoLoad (one line at a time) and by load() (whole file). Oracle: every saved data global has an equal type-tagged dump after reload; every function global gives identical output/value/error on a 6-call probe set; the number of lines equals the number of bindings written, no empty line; saving the reloaded state yields byte-identical text; values over MaxValueLen are absent (not truncated) and the rest complete. An environment that cannot be built (definition fails) is not a case. Non-trivial = cases; distinct by definitions + limit.",
+		ID:          "C14",
+		Level:       "exploration",
+		Rule:        "global environments enumerated exhaustively over a value/function universe; each is built through the evaluator, saved with State.SaveGlobals, written to ./.gr in a scratch directory and reloaded into fresh states by the real repl.AutoLoad (one line at a time) and by load() (whole file). Oracle: every saved data global has an equal type-tagged dump after reload; every function global gives identical output/value/error on a 6-call probe set; the number of lines equals the number of bindings written, no empty line; saving the reloaded state yields byte-identical text; values over MaxValueLen are absent (not truncated) and the rest complete. An environment that cannot be built (definition fails) is not a case. Non-trivial = cases; distinct by definitions + limit.",
 		Assume:      []string{"functions are compared on a probe set of 6 argument lists, not on every argument"},
 		QuickCap:    100 * time.Second,
 		ThoroughCap: 20 * time.Minute,
@@ -493,6 +605,9 @@ func init() {
 			if dir, err := os.MkdirTemp("", "c14-cwd-"); err == nil {
 				_ = os.Chdir(dir)
 				defer os.RemoveAll(dir)
+			}
+			if cs.Kind == "sessions" {
+				return c14SessionHistory(strings.Split(cs.Data, " ;; "), cs.Cfg == "true", cs)
 			}
 			var limit int
 			fmt.Sscan(cs.Cfg, &limit)
